@@ -41,12 +41,18 @@ class TypeScriptHeaderParser(BaseHeaderParser):
         if not code or not code.strip():
             return None
 
-        match = self.JSDOC_PATTERN.match(code)
-        if not match:
+        # Same language as JSDOC_PATTERN, found with two string searches: on a comment that is
+        # never closed the pattern backtracks cubically (a `/**` followed by a few thousand
+        # blanks kept every command busy for minutes).
+        stripped = code.lstrip()
+        if not stripped.startswith("/**"):
+            return None
+        end = stripped.find("*/", 3)
+        if end == -1:
             return None
 
         # Extract the content inside the JSDoc
-        jsdoc_content = match.group(1)
+        jsdoc_content = stripped[3:end].strip()
 
         # Clean up the JSDoc content - remove leading * from each line
         return self._clean_jsdoc_content(jsdoc_content)
